@@ -596,7 +596,7 @@ fn rng_spec() -> BoxedStrategy<RngSpec> {
 }
 
 fn spec_strategy(kind: u8) -> BoxedStrategy<AgentSpec> {
-    let n = prop_oneof![1 => Just(0u16), 6 => 1u16..=8, 2 => 9u16..=50];
+    let n = prop_oneof![2 => Just(0u16), 12 => 1u16..=8, 4 => 9u16..=50, 1 => prop_oneof![Just(63u16), Just(64), Just(65), Just(127), Just(128), Just(129), Just(255), Just(256), Just(257), 51u16..=300]];
     let mu = prop_oneof![3 => -2000i32..=6000, 1 => Just(0i32)];
     let sigma = prop_oneof![3 => 0u32..=12_000, 2 => Just(10_000u32), 1 => Just(1_000u32), 1 => Just(0u32)];
     let vol = prop_oneof![3 => 1u32..=100, 1 => 1u32..=10_000];
@@ -613,6 +613,13 @@ pub fn agent_case_strategy(kind: u8, max_steps: u16) -> BoxedStrategy<AgentCase>
     (spec_strategy(kind), any::<bool>(), 0u8..2, 1u32..=10, prop_oneof![1 => Just(0u8), 1 => Just(1u8), 1 => Just(2u8), 4 => Just(3u8)], prop_oneof![4 => 20u32..5000, 1 => 20u32..400_000_000], 1u16..=max_steps, rng_spec(), prop_oneof![3 => 0u32..1000, 1 => any::<u32>().prop_map(|x| x >> 1)], proptest::collection::vec(prop_oneof![3 => Just(0i8), 1 => -6i8..=6], 0..40))
         .prop_map(|(spec, market, asset, tick, start_book, mid_k, steps, rng, id_start, quote_moves)| {
             let mid_k = mid_k.min((u32::MAX / tick).saturating_sub(1000)).max(20);
+            // large populations run fewer rounds (the audit reads every order record around every update): the
+            // total number of trader-rounds stays below ~5 000 so that a case takes milliseconds, far from the
+            // per-case CPU limit that stands for non-termination
+            let n = match &spec {
+                AgentSpec::Random { n, .. } | AgentSpec::Noise { n, .. } | AgentSpec::Momentum { n, .. } => *n as u32,
+            };
+            let steps = if n > 50 { steps.min((5_000 / n).max(2) as u16) } else { steps };
             AgentCase { spec, market, asset, tick, start_book, mid_k, steps, rng, id_start, quote_moves }
         })
         .boxed()
@@ -626,7 +633,7 @@ pub fn parts_c16(tier: Tier) -> (Vec<Part<Case>>, String) {
     }
     (
         v,
-        "A case is one agent object (random / noise / momentum; single-asset on Env or multi-asset on MarketEnv<2,10>) with generated parameters (counts 0..50, tick 1..10 shared with the environment, probabilities from {0, (0,1), 1, >1}, log-normal mu in [-2,6], sigma in [0,12] incl. the documentation's 10, volumes 1..10^4), a starting book (empty / one-sided / two-sided), 1..200 update+step rounds driven by the harness, occasional harness quotes moving the touch, and a generator (Xoroshiro seeds incl. boundary seeds, or a scripted RngCore replaying generated words such as 0 and MAX before continuing with Xoroshiro). After each update every newly created order is checked (status New, agent's trader id, configured volume or range, on the grid, buy <= observed mid <= sell, random agents inside their tick range, at most one live order per trader, probability 0 => nothing, >= 1 => exactly once per trader); after the following step every order that became Cancelled must be the agent's own and have been Active when the agent looked, and p_cancel in {0, >=1} must be exact; a panic anywhere in the agent or environment is a violation. Non-trivial: >= 20 emitted instructions of >= 2 kinds on a two-sided book."
+        "A case is one agent object (random / noise / momentum; single-asset on Env or multi-asset on MarketEnv<2,10>) with generated parameters (counts 0..50 and, in 5 % of the cases, up to 300 incl. 63..65, 127..129, 255..257 with fewer rounds; tick 1..10 shared with the environment, probabilities from {0, (0,1), 1, >1}, log-normal mu in [-2,6], sigma in [0,12] incl. the documentation's 10, volumes 1..10^4), a starting book (empty / one-sided / two-sided), 1..200 update+step rounds driven by the harness, occasional harness quotes moving the touch, and a generator (Xoroshiro seeds incl. boundary seeds, or a scripted RngCore replaying generated words such as 0 and MAX before continuing with Xoroshiro). After each update every newly created order is checked (status New, agent's trader id, configured volume or range, on the grid, buy <= observed mid <= sell, random agents inside their tick range, at most one live order per trader, probability 0 => nothing, >= 1 => exactly once per trader); after the following step every order that became Cancelled must be the agent's own and have been Active when the agent looked, and p_cancel in {0, >=1} must be exact; a panic anywhere in the agent or environment is a violation. Non-trivial: >= 20 emitted instructions of >= 2 kinds on a two-sided book."
             .to_string(),
     )
 }
